@@ -275,6 +275,9 @@ func check(ev *eval.Evaler, fc fcase, typed bool) (kind, desc string, err error)
 	return "", "", nil
 }
 
+// conversions (inexact-num of an exact number) recorded for JudgeNearest.tla
+var nearCases []numx.NearCase
+
 func replayCase(c *lib.Ctx, ev *eval.Evaler, fc fcase) error {
 	if fc.Out == nil || fc.Out.T == "unspec" {
 		c.Inc("not_prescribed_unspec", 1)
@@ -293,6 +296,53 @@ func replayCase(c *lib.Ctx, ev *eval.Evaler, fc fcase) error {
 			return nil
 		}
 	}
+	if fc.Cmd == "inexact-num" && fc.Out.T == "term" && fc.Out.Term.Op == "nearest" {
+		// record what the real builtin produced for this exact number
+		o := elv.RunCtx(ev, source(fc.Cmd, fc.Args, true), nil, 60*time.Second)
+		if len(o.Values) == 1 {
+			if f, ok := o.Values[0].(float64); ok {
+				a := fc.Args[0]
+				nearCases = append(nearCases, numx.NearCase{Kind: "rat", Neg: a.N.Sign() < 0, M: numx.Limbs(&a.N.Int), D: numx.Limbs(&a.D.Int), Sc: 0, Bits: numx.HexDigits(math.Float64bits(f))})
+			}
+		}
+	}
+	return nil
+}
+
+// judgeNearest lets TLC decide whether the doubles the real conversion produced are the nearest
+// ones (Nearest.tla): a cost-bounded sample of the recorded inexact-num calls.
+func judgeNearest(c *lib.Ctx) error {
+	budget := c.Pick(2500, 100000)
+	max := c.Pick(250, 5000)
+	var sel []numx.NearCase
+	c.Rand.Shuffle(len(nearCases), func(i, j int) { nearCases[i], nearCases[j] = nearCases[j], nearCases[i] })
+	for _, n := range nearCases {
+		if k := n.Cost(); k <= budget && len(sel) < max {
+			budget -= k
+			sel = append(sel, n)
+		}
+	}
+	// vacuity guard: 2^53+1 converted to 2^53+2 (tie broken to odd) must be rejected
+	sel = append(sel, numx.NearCase{Kind: "rat", Neg: false, M: numx.Limbs(new(big.Int).Add(numx.Pow2(53), big.NewInt(1))), D: []int{1}, Sc: 0, Bits: numx.HexDigits(math.Float64bits(9007199254740994))})
+	bad, err := lib.Judge(c, "JudgeNearest", c.SpecDir("Arith"), "JudgeNearest", sel, c.Pick(2, 4), 14*time.Minute)
+	if err != nil {
+		return err
+	}
+	guard := false
+	for _, b := range bad {
+		if b.Index == len(sel)-1 {
+			guard = true
+			continue
+		}
+		n := sel[b.Index]
+		c.Reject("inexact-num:not-nearest", fmt.Sprintf("inexact-num of %v/%v gives bits %x: Nearest.tla: not the nearest double", n.M, n.D, numx.FromHex(n.Bits)), n)
+	}
+	if !guard {
+		return lib.Infra("vacuity guard: JudgeNearest accepted a wrongly rounded 2^53+1")
+	}
+	c.AddTraces(len(sel) - 1)
+	c.Set("conversions_judged_by_tlc", len(sel)-1)
+	c.Logf("conversions judged by TLC: %d of %d", len(sel)-1, len(nearCases))
 	return nil
 }
 
@@ -380,7 +430,11 @@ func run(c *lib.Ctx) error {
 	}
 	c.AddTraces(len(rnd))
 	c.Logf("random lists: %d judged", len(rnd))
-	c.Assume("hardware IEEE-754 double + - * / (Go float64) and big.Rat.Float64 as NearestDouble are trusted primitives; the executor re-checks every NearestDouble result against both neighbouring doubles with exact rational arithmetic")
+	// ---- V: the conversion itself, decided by TLC
+	if err := judgeNearest(c); err != nil {
+		return err
+	}
+	c.Assume("hardware IEEE-754 double + - * / (Go float64) and big.Rat.Float64 as NearestDouble are trusted primitives; the executor re-checks every NearestDouble result against both neighbouring doubles with exact rational arithmetic, and a cost-bounded sample of the conversions performed by the real inexact-num is judged by TLC itself (Nearest.tla, BigNat)")
 	c.Assume("TLC is trusted; ArithF.tla decides conversion, fold order, initial element, exact-zero precedence, exceptions, the exact binary value of floats (exact-num) and the integer results of floor/ceil/round/round-to-even/trunc (BigNat); it does not compute IEEE sums/products")
 	c.Assume("arguments are built with the real `num` from shortest round-trip spellings (C05 covers that); any NaN equals any NaN")
 	return nil
